@@ -70,8 +70,9 @@ theorem toEv_new (i r : Int) (e : Ev D) :
     toEv (⟨i, r, e.ts, e.ts + e.dur, e.data⟩ : ERow D) = { e with id := some i } := by
   simp only [toEv, add_sub_self]
 
-theorem insertOne_view {s s' : St D} {b : String} {e : Ev D} {i : Int} (hI : Inv s)
-    (_he : e.id = none) (h : insertOne s b e = .ok (s', i)) :
+/-- `insertOne_view` without the (unused) hypothesis that the event carries no id -/
+theorem insertOne_view' {s s' : St D} {b : String} {e : Ev D} {i : Int} (hI : Inv s)
+    (h : insertOne s b e = .ok (s', i)) :
     (view s b).isSome ∧ view s' = Spec.insert (view s) b i e ∧
       ∀ b', i ∉ Spec.ids (view s) b' := by
   unfold insertOne at h
@@ -102,6 +103,22 @@ theorem insertOne_view {s s' : St D} {b : String} {e : Ev D} {i : Int} (hI : Inv
     · intro b' hmem
       have := ids_le hI hmem
       omega
+
+theorem insertOne_view {s s' : St D} {b : String} {e : Ev D} {i : Int} (hI : Inv s)
+    (_he : e.id = none) (h : insertOne s b e = .ok (s', i)) :
+    (view s b).isSome ∧ view s' = Spec.insert (view s) b i e ∧
+      ∀ b', i ∉ Spec.ids (view s) b' := insertOne_view' hI h
+
+/-- the id handed out is the next value of the AUTOINCREMENT counter -/
+theorem insertOne_seq {s s' : St D} {b : String} {e : Ev D} {i : Int}
+    (h : insertOne s b e = .ok (s', i)) : i = s.seqE + 1 ∧ s'.seqE = s.seqE + 1 := by
+  unfold insertOne at h
+  split at h
+  · cases h
+  · injection h with h
+    injection h with h hi
+    subst h hi
+    exact ⟨rfl, rfl⟩
 
 theorem insertOne_missing {s : St D} {b : String} {e : Ev D} (_hI : Inv s)
     (h : view s b = none) : insertOne s b e = .error .integrity := by
